@@ -134,6 +134,69 @@ func (fc *fnCtx) chanClose(st *State, fr *frame, call *ssa.Call, ch Val, k func(
 // being thread-confined, which the engine does not track: recorded as an assumption.
 func (fc *fnCtx) goStmt(st *State, fr *frame, ins *ssa.Go) {
 	fc.e.warnings[fmt.Sprintf("goroutine spawned in %s: its body is verified separately; captured objects are shared from here on (not tracked)", fr.key)] = true
+	// the spawned function's preconditions must hold at the spawn point
+	c := ins.Common()
+	var callee *ssa.Function
+	args := fc.callArgs(st, c)
+	if mc, ok := c.Value.(*ssa.MakeClosure); ok {
+		callee = mc.Fn.(*ssa.Function)
+		for i, b := range mc.Bindings {
+			bv := fc.val(st, b)
+			if pt, ok := callee.FreeVars[i].Type().Underlying().(*types.Pointer); ok && bv.S == SU {
+				// the contract of a closure names captured variables by their value
+				es := sortOfType(pt.Elem())
+				rn, rs := cellRegion(es)
+				bv = Val{T: sel(fc.region(st, rn, rs), bv.T), S: es, GT: pt.Elem()}
+			}
+			args = append(args, bv)
+		}
+	} else if f := c.StaticCallee(); f != nil {
+		callee = f
+	}
+	site := fc.instrLabel(fr, ins)
+	if callee == nil {
+		fc.unsupported("go statement with a dynamic callee")
+	}
+	k := fc.e.keyOf(callee)
+	fs := fc.e.contracts.Funcs[k]
+	if fs == nil {
+		fc.emit(st, fc.oblName(fr, "spawn@"+site+".contract"), "pre", "the spawned function "+k+" has a contract", fc.posOf(ins), "false", nil)
+	} else {
+		spec := fc.e.effective(fs, k)
+		lets := map[string]Val{}
+		eval := func(c effClause, want Sort, check bool) (v Val, ok bool) {
+			defer func() {
+				if r := recover(); r != nil {
+					if se, isS := r.(specError); isS {
+						fc.contractError(st, c.Clause, se.msg+" [at spawn site "+site+" in "+fr.key+"]")
+						ok = false
+						return
+					}
+					panic(r)
+				}
+			}()
+			sc := fc.calleeCtx(st, spec, c.params, nil, args, nil)
+			sc.old, sc.oldNow = st.heap, st.now
+			for n, lv := range lets {
+				sc.vars[n] = lv
+			}
+			v = sc.eval(c.E)
+			if check {
+				sc.want(v, want, c.E)
+			}
+			return v, true
+		}
+		for _, l := range spec.lets {
+			if v, ok := eval(l, SU, false); ok {
+				lets[l.Name] = v
+			}
+		}
+		for _, r := range spec.requires {
+			if v, ok := eval(r, SBool, true); ok {
+				fc.emit(st, fc.oblName(fr, fmt.Sprintf("pre@%s.%s.requires%d", site, shortKey(spec.key), r.Ord)), "pre", r.Text, clauseLoc(r.Clause), v.T, nil)
+			}
+		}
+	}
 	n := fc.declare(st, "now", "Int")
 	st.pc = append(st.pc, fmt.Sprintf("(>= %s %s)", n, st.now))
 	st.now = n
